@@ -102,6 +102,9 @@ def _qplan(what, quick, thorough):
 
 
 PLAN = {
+    "C16": _qplan("DATA_ADD, timer, read and write sources cancelled before activation, from the handler, from an item on the target queue, from another thread while events arrive, twice, "
+                  "with cancel_and_wait, and racing activation; epoll registrations mirrored by the scheduler",
+                  "k<=2 for the 14 smaller scenarios, k<=1 for the rest", "k<=3 / k<=2"),
     "C11": dict(_qplan("dispatch_after with past/now/+1ms/+1s deadlines on the three clocks; periodic, one-shot, re-armed, replaced-before-activation, suspended and concurrent timer populations on virtual clocks "
                        "('timer expires first' is a deviation)",
                        "end-to-end: k<=1 for all 22 programs, k<=2 for 4; heap: BFS fixpoint with <=4 live timers + prefilled sizes 0..40 x depth-2 suffixes (depth 3 at segment boundaries)",
@@ -252,6 +255,12 @@ def tasks_for(pid, tier):
                     out += ds("apply", k, [v], ncpu=ncpu, jobs=4)
         out.sort(key=lambda t: (t["jobs"], t["variant"]))
         return out
+    if pid == "C16":
+        allv = list(range(0, 28))
+        small = [0, 1, 2, 3, 5, 6, 7, 13, 14, 15, 20, 21, 22, 27]
+        if q:
+            return ds("cancel", 1, [v for v in allv if v not in small], jobs=6) + ds("cancel", 2, small, jobs=6)
+        return ds("cancel", 2, [v for v in allv if v not in small], jobs=8) + ds("cancel", 3, small, jobs=8)
     if pid == "C17":
         tiny = [0, 4, 6, 7, 9, 10, 11]
         rest = [1, 2, 3, 5, 8]
